@@ -6,6 +6,8 @@ package sim
 
 import (
 	"sort"
+
+	pbsubstreams "github.com/streamingfast/substreams/pb/sf/substreams/v1"
 )
 
 var spkgPaths = []string{
@@ -25,12 +27,55 @@ func mapModulesOf(path string) []string {
 	return out
 }
 
+// observesSetSumTag reports whether out or one of its ancestors reads a set_sum store in deltas
+// mode. Such a module sees the raw stored bytes including the internal "set:"/"sum:" tag, which
+// differs between a linear run and a squashed store (known finding KF2, owned by C01): the other
+// properties' real-wazero scenarios do not pick such an output module.
+func observesSetSumTag(path, out string) bool {
+	mods := loadSpkg(path).Modules
+	by := map[string]*pbsubstreams.Module{}
+	for _, m := range mods {
+		by[m.Name] = m
+	}
+	seen := map[string]bool{}
+	var walk func(n string) bool
+	walk = func(n string) bool {
+		if seen[n] {
+			return false
+		}
+		seen[n] = true
+		m := by[n]
+		if m == nil {
+			return false
+		}
+		for _, in := range m.Inputs {
+			if st := in.GetStore(); st != nil {
+				if sm := by[st.ModuleName]; sm != nil && st.Mode == pbsubstreams.Module_Input_Store_DELTAS &&
+					sm.GetKindStore().GetUpdatePolicy() == pbsubstreams.Module_KindStore_UPDATE_POLICY_SET_SUM {
+					return true
+				}
+				if walk(st.ModuleName) {
+					return true
+				}
+			}
+			if mp := in.GetMap(); mp != nil && walk(mp.ModuleName) {
+				return true
+			}
+		}
+		return false
+	}
+	return walk(out)
+}
+
 // wazeroBase builds the geometry for a compiled package and output module.
-func wazeroBase(r *Rng) *baseGen {
+func wazeroBase(r *Rng, prop string) *baseGen {
 	for tries := 0; tries < 50; tries++ {
 		path := spkgPaths[r.Intn(len(spkgPaths))]
 		maps := mapModulesOf(path)
 		out := maps[r.Intn(len(maps))]
+		if prop != "C01" && observesSetSumTag(path, out) {
+			continue
+		}
 		pkg := &PkgDef{Spkg: path, Output: out}
 		gi, err := inspectGraph(pkg, out, true)
 		if err != nil {
@@ -48,12 +93,16 @@ func wazeroBase(r *Rng) *baseGen {
 // GenWazero produces a scenario of the given property over a compiled package.
 func GenWazero(seed uint64, prop string) *Scenario {
 	r := NewRng(seed, "gen", "wazero", prop)
-	b := wazeroBase(r)
+	b := wazeroBase(r, prop)
 	s := &Scenario{Prop: prop, Seed: seed, Family: "real_wazero", Pkg: b.pkg, Head: b.head, ConfDepth: uint64(r.Range(1, 3))}
 	genPolicy(r, s)
 	nh := r.Range(0, 1)
 	for i := 0; i <= nh; i++ {
-		h := HistItem{Req: genDeepReq(r, b, b.pkg.Output, 0, 1, 4)}
+		maxSeg := 4
+		if r.Chance(1, 3) {
+			maxSeg = 10 // the complex package changes behaviour at block 80
+		}
+		h := HistItem{Req: genDeepReq(r, b, b.pkg.Output, 0, 1, maxSeg)}
 		h.Req.DebugSnap = nil
 		if i < nh {
 			switch prop {
